@@ -308,7 +308,7 @@ func runC12(c *Ctx) {
 	// who may forget a session: only close (before closing) and the failed-poll branch
 	for name, fn := range se.all() {
 		for _, d := range Calls(fn, "(*sync.Map).Delete") {
-			ok := name == "close" || name == "poll"
+			ok := name == "close" || name == "poll" || openRollback(se, d)
 			c.Check("C12.U", name+":may-forget-session", p, d.Pos(), ok, "sessions are only forgotten by close and by a failed poll (after the queued server messages were drained)", "the "+name+" endpoint deletes the session from the table: when the backend has closed, a later poll is answered 'unknown session' and the messages already received from the backend are lost instead of being delivered first")
 		}
 	}
